@@ -84,3 +84,31 @@ Definition load (G:graph) : load_res :=
 
 Definition is_cycle_err (r:load_res) : bool :=
   match r with LoadErr (ELoop | EDepLoop | ECycle | EDepCycle) => true | _ => false end.
+
+(* ---- depends_on as written: a revision id or a branch label (RevisionMap._map_branch_labels puts the
+   labels into the map as extra keys, _add_depends_on resolves every dependency through the map) ---- *)
+Definition rawdep : Type := (bool * N)%type.                 (* (true, l) = branch label l ; (false, x) = revision id x *)
+Definition rawgraph : Type := list (revision * list rawdep).  (* r_deps of the revisions is ignored *)
+Definition label_owner (G:graph) (l:N) : option N :=
+  match filter (fun r => memN l (r_labels r)) G with r :: _ => Some (r_id r) | [] => None end.
+Definition resolve_dep (G:graph) (d:rawdep) : list N :=
+  let '(is_label, x) := d in if is_label then match label_owner G x with Some o => [o] | None => [] end else [x].
+Definition resolve_graph (R:rawgraph) : graph :=
+  let G0 := map fst R in
+  map (fun rd => let '(r, raw) := rd in mkRev (r_id r) (r_down r) (flat_map (resolve_dep G0) raw) (r_ndeps r) (r_labels r)) R.
+(* Revision.__init__ compares the revision id with the dependencies AS WRITTEN, so only an id-valued
+   self dependency raises DependencyLoopDetected there; a revision depending on its own label is only
+   found by _detect_cycles *)
+Definition id_graph (R:rawgraph) : graph :=
+  map (fun rd => let '(r, raw) := rd in
+         mkRev (r_id r) (r_down r) (flat_map (fun d : rawdep => if fst d then [] else [snd d]) raw) (r_ndeps r) (r_labels r)) R.
+Definition load_raw (R:rawgraph) : load_res :=
+  let G := resolve_graph R in
+  match self_loop (id_graph R) with
+  | Some e => LoadErr e
+  | None =>
+    match detect_cycles G with
+    | Some e => LoadErr e
+    | None => Loaded (mkLoaded (heads_of G) (bases_of G) (real_heads_of G) (real_bases_of G))
+    end
+  end.
